@@ -19,6 +19,11 @@ def run(ctx):
             ctx.violation("Limiter: the process was terminated by a panic (a panicking function must not kill it; limits below 1 fall back to 3): %s" % rr.stderr[:300],
                           {"component": "LimiterCrash", "scenario": cur, "stderr": rr.stderr[:3000]}, key="Limiter/crash")
             return
+        if "all goroutines are asleep" in rr.stderr and "golib/goz.(*Limiter)" in rr.stderr:
+            # every goroutine is blocked and at least one of them inside the Limiter (a slot or the bookkeeping was lost)
+            ctx.violation("Limiter: the process deadlocked with goroutines blocked inside the Limiter: %s" % rr.stderr[:200],
+                          {"component": "LimiterCrash", "scenario": cur, "stderr": rr.stderr[:3000]}, key="Limiter/deadlock")
+            return
         raise Inconclusive("limiter driver failed: %s" % rr.stderr[-2000:])
     st = read_json(os.path.join(outd, "limiter_stats.json"))
     ctx.cov["engines"].append({"engine": "gated scenarios", "component": "Limiter", "scenarios": st["scenarios"], "events": st["events"]})
